@@ -139,6 +139,15 @@ func (e *Engine) typeByName(s string) types.Type {
 	}
 	i := strings.LastIndex(s, ".")
 	if i < 0 {
+		// predeclared types: string, int, error, ...
+		if obj := types.Universe.Lookup(s); obj != nil {
+			if tn, ok := obj.(*types.TypeName); ok {
+				if ptr {
+					return types.NewPointer(tn.Type())
+				}
+				return tn.Type()
+			}
+		}
 		return nil
 	}
 	pn, tn := s[:i], s[i+1:]
